@@ -59,7 +59,8 @@ type model struct {
 	traces  []sTrace
 	mixed   map[string]bool // kind -> some response of that kind carries items naming different blocks
 
-	hashFromItem int // returned blocks whose hash is an item's blockHash instead of the header's (informational)
+	txHashes     map[key2][]byte // (block, tx index) -> hash, from eth_getBlockByNumber(full) responses
+	txHashChange int             // returned txs whose hash differs from the one the block response carried (informational)
 }
 
 func hashOf(hs []sHeader) []byte {
@@ -134,7 +135,7 @@ func parseLog(l map[string]any, resp int) (sLog, bool) {
 	s.bn, ok[0] = pU(l["blockNumber"])
 	s.ti, ok[1] = pU(l["transactionIndex"])
 	s.li, ok[2] = pU(l["logIndex"])
-	s.bhash, ok[3] = pB(l["blockHash"], false)
+	s.bhash, ok[3] = pB(l["blockHash"], true)
 	s.addr, ok[4] = pB(l["address"], false)
 	s.data, ok[5] = pB(l["data"], false)
 	tps, isArr := l["topics"].([]any)
@@ -162,7 +163,7 @@ func parseRcpt(r map[string]any, resp int) (sRcpt, bool) {
 	ok := make([]bool, 7)
 	s.bn, ok[0] = pU(r["blockNumber"])
 	s.ti, ok[1] = pU(r["transactionIndex"])
-	s.bhash, ok[2] = pB(r["blockHash"], false)
+	s.bhash, ok[2] = pB(r["blockHash"], true)
 	s.status, ok[3] = pU(r["status"])
 	s.gasUsed, ok[4] = pU(r["gasUsed"])
 	s.egp, ok[5] = pI(r["effectiveGasPrice"])
@@ -198,7 +199,7 @@ func parseTrace(t map[string]any, resp int) (sTrace, bool) {
 		return s, false
 	}
 	ok := make([]bool, 6)
-	s.bhash, ok[5] = pB(t["blockHash"], false)
+	s.bhash, ok[5] = pB(t["blockHash"], true)
 	s.bn, ok[0] = pN(t["blockNumber"])
 	s.ti, ok[1] = pN(t["transactionPosition"])
 	s.from, ok[2] = pB(a["from"], false)
@@ -217,7 +218,7 @@ func parseTrace(t map[string]any, resp int) (sTrace, bool) {
 // buildModel turns the logged exchanges into the set of things that were sent, plus the
 // list of reasons why the property requires the call to fail.
 func buildModel(cs *Case, exs []*simeth.Exchange) *model {
-	m := &model{headers: map[uint64][]sHeader{}, mixed: map[string]bool{}}
+	m := &model{headers: map[uint64][]sHeader{}, mixed: map[string]bool{}, txHashes: map[key2][]byte{}}
 	inRange := func(n uint64) bool { return n >= cs.Start && n < cs.Start+cs.Limit }
 	for xi, ex := range exs {
 		kind := exKind(ex)
@@ -291,6 +292,16 @@ func buildModel(cs *Case, exs []*simeth.Exchange) *model {
 					m.need(kind, "wrong-number")
 				}
 				m.headers[h.num] = append(m.headers[h.num], h)
+				if txs, isArr := ro["transactions"].([]any); isArr {
+					for _, t := range txs {
+						tm := asMap(t)
+						ti, ok1 := pU(tm["transactionIndex"])
+						th, ok2 := pB(tm["hash"], false)
+						if ok1 && ok2 {
+							m.txHashes[key2{h.num, ti}] = th
+						}
+					}
+				}
 			case "logs":
 				if _, isObj := r.(map[string]any); isObj {
 					continue // the sentinel header: judged for presence only (scope decision)
@@ -357,17 +368,32 @@ func buildModel(cs *Case, exs []*simeth.Exchange) *model {
 	return m
 }
 
-// orderSensitive: the plan supplies validated hashes AND some sent log carries a block
-// hash that differs from the header sent for the block it names. The client writes item
-// hashes over the header hash while ranging over a Go map, so whether the returned blocks
-// stay hash-linked may differ from run to run; such cases are re-executed.
+// orderSensitive: the client attaches eth_getLogs results while ranging over a Go map
+// (one entry per tx), checking / writing the block hash for the first log of each entry.
+// When a block has several entries whose first logs do not all carry the same blockHash
+// bytes (or, on plans with headers, not the header's hash) the verdict of the call may
+// depend on the iteration order; such cases are executed a fixed number of times.
 func (m *model) orderSensitive(f flags) bool {
-	if !f.hashed() {
-		return false
-	}
+	// the client looks at the FIRST log (response order) of every (block, tx) entry only
+	firstOf := map[key2][]byte{}
+	perBlock := map[uint64][][]byte{}
 	for _, l := range m.logs {
-		for _, h := range m.headers[l.bn] {
-			if !bytes.Equal(h.hash, l.bhash) {
+		k := key2{l.bn, l.ti}
+		if _, ok := firstOf[k]; !ok {
+			firstOf[k] = l.bhash
+			perBlock[l.bn] = append(perBlock[l.bn], l.bhash)
+		}
+	}
+	for bn, hs := range perBlock {
+		if len(hs) < 2 { // one entry: nothing to permute
+			continue
+		}
+		ref := hs[0]
+		if f.hashed() && len(m.headers[bn]) > 0 {
+			ref = m.headers[bn][0].hash
+		}
+		for _, h := range hs {
+			if !bytes.Equal(h, ref) {
 				return true
 			}
 		}
@@ -478,23 +504,12 @@ func judgeGet(cs *Case, out *outcome, m *model) []finding {
 		return fs
 	}
 
-	// 2. hashes as sent and linked, where the plan supplies them. A block's hash may come
-	// from the header sent for its number or from the blockHash member of an item that names
-	// that number (the client prefers the latter); parent and time come from the header.
+	// 2. hashes as sent and linked, where the plan supplies them: hash, parent and time of a
+	// returned block are those of the header sent for its number.
 	if fl.hashed() {
 		hk := "headers"
 		if fl.B {
 			hk = "blocks"
-		}
-		itemHashes := map[uint64][][]byte{}
-		for i := range m.logs {
-			itemHashes[m.logs[i].bn] = append(itemHashes[m.logs[i].bn], m.logs[i].bhash)
-		}
-		for i := range m.rcpts {
-			itemHashes[m.rcpts[i].bn] = append(itemHashes[m.rcpts[i].bn], m.rcpts[i].bhash)
-		}
-		for i := range m.traces {
-			itemHashes[m.traces[i].bn] = append(itemHashes[m.traces[i].bn], m.traces[i].bhash)
 		}
 		for i := range blocks {
 			h := &blocks[i].Header
@@ -510,16 +525,10 @@ func judgeGet(cs *Case, out *outcome, m *model) []finding {
 					exact = exact || bytes.Equal(h.Hash, c.hash)
 				}
 			}
-			fromItem := false
-			for _, ih := range itemHashes[uint64(h.Number)] {
-				fromItem = fromItem || bytes.Equal(h.Hash, ih)
-			}
 			switch {
 			case exact:
-			case rest && fromItem:
-				m.hashFromItem++
 			case rest:
-				add(hk+":block-hash-never-sent", "block %d: returned hash %x, which neither the header (%x) nor any item sent for this block carries", h.Number, []byte(h.Hash), cands[0].hash)
+				add(hk+":block-hash-not-the-headers", "block %d: returned hash %x (%d bytes), the header sent for it says %x", h.Number, []byte(h.Hash), len(h.Hash), cands[0].hash)
 			default:
 				add(hk+":header-not-as-sent", "block %d: returned hash %x parent %x time %d; sent hash %x parent %x time %d", h.Number, []byte(h.Hash), []byte(h.Parent), h.Time, cands[0].hash, cands[0].parent, cands[0].time)
 			}
@@ -534,6 +543,55 @@ func judgeGet(cs *Case, out *outcome, m *model) []finding {
 				} else { // linked headers were sent; an item's blockHash replaced the validated hash
 					add(brokenLinkKey, "returned blocks are not hash-linked: block %d has parent %x but returned block %d has hash %x (the header sent for it said %x)", h.Number, []byte(h.Parent), prev.Number, []byte(prev.Hash), hashOf(m.headers[uint64(prev.Number)]))
 				}
+			}
+		}
+	}
+
+	// 2b. plans without headers: the hash of a block comes from its items; it must be a full
+	// 32-byte blockHash carried by ALL items that name the block (else the call has to fail).
+	if !fl.hashed() {
+		type ih struct {
+			kind string
+			h    []byte
+		}
+		per := map[uint64][]ih{}
+		for i := range m.logs {
+			per[m.logs[i].bn] = append(per[m.logs[i].bn], ih{"logs", m.logs[i].bhash})
+		}
+		for i := range m.rcpts {
+			per[m.rcpts[i].bn] = append(per[m.rcpts[i].bn], ih{"receipts", m.rcpts[i].bhash})
+		}
+		for i := range m.traces {
+			per[m.traces[i].bn] = append(per[m.traces[i].bn], ih{"traces", m.traces[i].bhash})
+		}
+		for i := range blocks {
+			h := &blocks[i].Header
+			its := per[uint64(h.Number)]
+			if len(its) == 0 {
+				continue
+			}
+			bad := ""
+			for _, it := range its {
+				if bad == "" && (len(it.h) != 32 || !bytes.Equal(it.h, its[0].h)) {
+					bad = it.kind
+					var all []string
+					for _, x := range its {
+						all = append(all, fmt.Sprintf("%s:%x(%dB)", x.kind, x.h, len(x.h)))
+					}
+					add(bad+":items-without-one-full-blockhash-accepted", "block %d: the items naming it do not all carry one 32-byte blockHash: %s; the call returned it with hash %x", h.Number, strings.Join(all, " "), []byte(h.Hash))
+				}
+			}
+			if bad == "" && !bytes.Equal(h.Hash, its[0].h) {
+				add("get:block-hash-not-the-items", "block %d: returned hash %x, every item sent for it says %x", h.Number, []byte(h.Hash), its[0].h)
+			}
+		}
+	}
+	// informational: tx hashes supplied by a full block response that an item's transactionHash replaced
+	for i := range blocks {
+		for j := range blocks[i].Txs {
+			tx := &blocks[i].Txs[j]
+			if want, ok := m.txHashes[key2{uint64(blocks[i].Header.Number), uint64(tx.Idx)}]; ok && !bytes.Equal(tx.PrecompHash, want) {
+				m.txHashChange++
 			}
 		}
 	}
